@@ -1,6 +1,7 @@
 import PygVerif.Generated
 import PygVerif.Lemmas.Selector
 import PygVerif.Model.Proto
+import PygVerif.Lemmas.Site
 /-!
 # C01 — Nothing outside the document root is ever read, listed, run or revealed
 
@@ -101,7 +102,77 @@ theorem single_encoding_exposed :
     secure (unquote (lit "/a%5c%5cb")) = false ∧ secure (unquote (lit "/a%00")) = false := by
   decide +kernel
 
+/-! ### 5. the kernel never leaves the root: resolution on the whole file system
+
+`Model/Site.kwalk` is the kernel's path resolution on an arbitrary file-system tree `W`
+(`..` climbs, at `/` it stays); the server hands it `root + selector`.  These theorems are
+about every `W`, every root path and every selector. -/
+
+/-- **Resolution is confined to the root.**  For a selector that passes the filter, `stat`
+    as the kernel performs it on the whole file system is `stat` on the subtree below the
+    document root: nothing outside the root takes part in the answer. -/
+theorem resolution_confined (W : Node) (rootStr : Str) (anc : List Node) (kids : List (Str × Node))
+    (hroot : kwalk [] W (splitOn 47 rootStr) = some (anc, .dir kids))
+    (sel : Str) (hh : sel.head? = some 47) (hs : secure sel = true) :
+    kstat W rootStr sel = statAt (.dir kids) sel :=
+  kstat_eq_statAt W rootStr anc kids hroot sel hh (noClimb_of_secure hs dotdot_forbidden nul_forbidden)
+
+/-- the same for the probe `selector + "/gophermap"` the gophermap handler makes -/
+theorem gophermap_probe_confined (W : Node) (rootStr : Str) (anc : List Node) (kids : List (Str × Node))
+    (hroot : kwalk [] W (splitOn 47 rootStr) = some (anc, .dir kids))
+    (sel : Str) (hh : sel.head? = some 47) (hs : secure sel = true) :
+    kstat W rootStr (sel ++ lit "/gophermap") = statAt (.dir kids) (sel ++ lit "/gophermap") := by
+  apply kstat_eq_statAt W rootStr anc kids hroot
+  · cases sel with
+    | nil => simp at hh
+    | cons c t => simpa using hh
+  · exact noClimb_append_gophermap sel (fun c hc => (secure_components hs c hc).1)
+
+/-- **Two worlds, one answer.**  Two file systems `W`, `W'` in which the configured root path
+    leads to the same directory give every selector the same handler and the same response
+    (not-found, menu, or the document's bytes) — for selectors the filter rejects (not-found in
+    both) and for those it accepts (resolved below the root in both).  Symbolic links are not
+    modelled. -/
+theorem two_worlds_same_answer (c : SiteCfg) (hc : c.forbidden = Generated.forbidden)
+    (W W' : Node) (rootStr : Str) (anc anc' : List Node) (kids : List (Str × Node))
+    (hroot : kwalk [] W (splitOn 47 rootStr) = some (anc, .dir kids))
+    (hroot' : kwalk [] W' (splitOn 47 rootStr) = some (anc', .dir kids))
+    (sel : Str) (hh : sel.head? = some 47) :
+    dispatch c (kstat W rootStr) sel = dispatch c (kstat W' rootStr) sel ∧
+    serve c (kstat W rootStr) sel = serve c (kstat W' rootStr) sel := by
+  by_cases hs : secure sel = true
+  · have e1 := resolution_confined W rootStr anc kids hroot sel hh hs
+    have e2 := resolution_confined W' rootStr anc' kids hroot' sel hh hs
+    have g1 := gophermap_probe_confined W rootStr anc kids hroot sel hh hs
+    have g2 := gophermap_probe_confined W' rootStr anc' kids hroot' sel hh hs
+    have hd : dispatch c (kstat W rootStr) sel = dispatch c (kstat W' rootStr) sel := by
+      unfold dispatch
+      rw [e1, e2, g1, g2]
+    exact ⟨hd, by unfold serve; rw [hd, e1, e2]⟩
+  · have hns : secureB c.forbidden sel = false := by
+      rw [hc]; simpa [secure] using hs
+    have hd : ∀ st : StatFn, dispatch c st sel = .notFound := by
+      intro st; unfold dispatch; simp [hns]
+    exact ⟨by rw [hd, hd], by unfold serve; rw [hd, hd]⟩
+
+/-- a selector the filter rejects is answered not-found, whatever the file system holds -/
+theorem insecure_is_notfound (c : SiteCfg) (hc : c.forbidden = Generated.forbidden) (st : StatFn) (sel : Str)
+    (hs : secure sel = false) : serve c st sel = .notFound := by
+  have hns : secureB c.forbidden sel = false := by rw [hc]; simpa [secure] using hs
+  unfold serve dispatch
+  simp [hns]
+
 /-! ### non-vacuity and sharpness -/
+
+/-- a world with a secret next to the root: the climbing path reaches it in the kernel's
+    resolution (`kstat` without the filter), and the filter is what answers not-found -/
+example :
+    let W : Node := .dir [(lit "srv", .dir [(lit "root", .dir [(lit "a.txt", .file [104, 105])]), (lit "secret", .file [115])])]
+    ((kwalk [] W (splitOn 47 (lit "/srv/root"))).bind (·.2.names)) = some [lit "a.txt"] ∧
+    (kstat W (lit "/srv/root") (lit "/a.txt")).bind Node.fileData = some [104, 105] ∧
+    (kstat W (lit "/srv/root") (lit "/../secret")).bind Node.fileData = some [115] ∧
+    secure (lit "/../secret") = false := by decide +kernel
+
 
 example : secure (lit "/a.b/c d/~x") = true := by decide
 example : secure (lit "/a/../b") = false := by decide
